@@ -17,9 +17,15 @@ import (
 	"encoding/hex"
 	"encoding/json"
 	"fmt"
+	"io"
 	"math"
+	"mime/quotedprintable"
+	"net/http"
+	"net/http/httptest"
+	"net/mail"
 	"os"
 	"path/filepath"
+	"reflect"
 	"sort"
 	"strconv"
 	"strings"
@@ -31,6 +37,7 @@ import (
 
 	"github.com/spf13/viper"
 	"go.uber.org/zap"
+	"gopkg.in/gomail.v2"
 
 	"github.com/linkedin/Burrow/core/internal/helpers"
 	"github.com/linkedin/Burrow/core/protocol"
@@ -521,6 +528,291 @@ func TestVerifProbeTmplConc(t *testing.T) {
 	}
 }
 
+// ---------------------------------------------------------------------------------------------------------------
+// "seq" cases: what the REAL module classes hand to their templates.  A notifier section (http / email modules with
+// shipped templates, plus an http module "zzfields" whose template prints all six data fields) is configured through
+// the real Coordinator.Configure; http modules post to a local httptest.Server, email modules are intercepted at
+// sendMailFunc.  A sequence of 2-4 evaluator replies about two groups (open, repeat, close) is fed to the real
+// checkAndSendResponseToModules under the virtual clock, so the real notifyModule and the real Notify methods run.
+// Every body received must equal the rendering of the configured template file (parsed on its own) on the EXPECTED
+// data: cluster and group of the reply, the group's event id, the time the INCIDENT was opened (the clock value of the
+// step that opened it), the CONFIGURED extras, the reply; "zzfields" bodies are compared field by field.
+// Output: "s<step> <module> <open|close> <verdict>" per expected notification, joined by " | ".
+// ---------------------------------------------------------------------------------------------------------------
+
+const vtFieldsTemplate = `{"cluster":{{jsonencoder .Cluster}},"group":{{jsonencoder .Group}},"id":{{jsonencoder .ID}},"start":{{.Start.UnixNano}},"extras":{{jsonencoder .Extras}},"result":{{jsonencoder .Result}}}`
+
+type vtCaptured struct {
+	module, kind, uri, method string
+	body                      []byte
+	subject                   string
+}
+
+func vtMailText(m *gomail.Message) (string, string, error) {
+	var buf bytes.Buffer
+	if _, err := m.WriteTo(&buf); err != nil {
+		return "", "", err
+	}
+	msg, err := mail.ReadMessage(&buf)
+	if err != nil {
+		return "", "", err
+	}
+	var r io.Reader = msg.Body
+	if strings.EqualFold(msg.Header.Get("Content-Transfer-Encoding"), "quoted-printable") {
+		r = quotedprintable.NewReader(msg.Body)
+	}
+	b, err := io.ReadAll(r)
+	if err != nil {
+		return "", "", err
+	}
+	subject := ""
+	if h := m.GetHeader("Subject"); len(h) > 0 {
+		subject = h[0]
+	}
+	return subject, strings.ReplaceAll(string(b), "\r\n", "\n"), nil
+}
+
+// what createMessage makes of the rendered text: the first "Subject: " line is the subject, "Content-Type: " and
+// "MIME-version: " lines are headers, every other line is body
+func vtMailExpected(content string) (subject, body string) {
+	for _, line := range strings.Split(content, "\n") {
+		switch {
+		case strings.HasPrefix(line, "Subject: ") && subject == "":
+			subject = strings.SplitN(line, "Subject: ", 2)[1]
+		case strings.HasPrefix(line, "Content-Type: "), strings.HasPrefix(line, "MIME-version: "):
+		default:
+			body += line + "\n"
+		}
+	}
+	return subject, body
+}
+
+func vtSeq(t *vtTokens) (res string) {
+	defer func() {
+		if r := recover(); r != nil {
+			res = fmt.Sprintf("SEQ-PANIC %v", r)
+		}
+		VerifSetClock(0)
+	}()
+	repo := os.Getenv("VERIF_REPO")
+	if repo == "" {
+		repo = "/repo"
+	}
+	nm := int(t.i64())
+	mods := make([]vtModule, nm)
+	for i := range mods {
+		mods[i] = vtModule{name: t.next(), class: t.next(), open: t.next(), close: t.next(), sendClose: t.next() == "1"}
+		mods[i].extras = t.extras()
+	}
+	clock := t.i64() * int64(time.Second)
+	nsteps := int(t.i64())
+	cluster := t.str()
+	groups := []string{t.str(), t.str()}
+
+	// the all-fields module renders a template of the probe's own with the extras of the first module
+	ff, err := os.CreateTemp("", "verif-fields-*.tmpl")
+	if err != nil {
+		return "SEQ-SETUP " + err.Error()
+	}
+	ff.WriteString(vtFieldsTemplate)
+	ff.Close()
+	defer os.Remove(ff.Name())
+	fields := vtModule{name: "zzfields", class: "http", open: ff.Name(), close: ff.Name(), sendClose: true, extras: map[string]string{}}
+	if len(mods) > 0 {
+		for k, v := range mods[0].extras {
+			fields.extras[k] = v
+		}
+	}
+	all := append(append([]vtModule{}, mods...), fields)
+	sort.Slice(all, func(i, j int) bool { return all[i].name < all[j].name })
+
+	var mu sync.Mutex
+	var captured []vtCaptured
+	ts := httptest.NewServer(http.HandlerFunc(func(w http.ResponseWriter, r *http.Request) {
+		body, _ := io.ReadAll(r.Body)
+		parts := strings.Split(strings.TrimPrefix(r.URL.Path, "/"), "/")
+		c := vtCaptured{uri: r.RequestURI, method: r.Method, body: body}
+		if len(parts) >= 2 {
+			c.kind, c.module = parts[0], parts[1]
+		}
+		mu.Lock()
+		captured = append(captured, c)
+		mu.Unlock()
+		w.WriteHeader(200)
+	}))
+	defer ts.Close()
+
+	coordinator := vtFreshCoordinator()
+	viper.Reset()
+	for _, m := range all {
+		root := "notifier." + m.name
+		viper.Set(root+".class-name", m.class)
+		if filepath.IsAbs(m.open) {
+			viper.Set(root+".template-open", m.open)
+			viper.Set(root+".template-close", m.close)
+		} else {
+			viper.Set(root+".template-open", filepath.Join(repo, "config", m.open))
+			viper.Set(root+".template-close", filepath.Join(repo, "config", m.close))
+		}
+		viper.Set(root+".send-close", m.sendClose)
+		viper.Set(root+".send-interval", 0)
+		viper.Set(root+".threshold", 2)
+		for k, v := range m.extras {
+			viper.Set(root+".extras."+k, v)
+		}
+		switch m.class {
+		case "http":
+			viper.Set(root+".url-open", ts.URL+"/open/"+m.name+"/{{.Group}}?id={{.ID}}")
+			viper.Set(root+".url-close", ts.URL+"/close/"+m.name+"/{{.Group}}?id={{.ID}}")
+			viper.Set(root+".method-close", "DELETE")
+		case "email":
+			viper.Set(root+".server", "127.0.0.1")
+			viper.Set(root+".port", 25)
+			viper.Set(root+".from", "burrow@example.com")
+			viper.Set(root+".to", "oncall@example.com")
+		}
+	}
+	coordinator.Configure()
+	for _, m := range all {
+		if em, ok := coordinator.modules[m.name].(*EmailNotifier); ok {
+			name := m.name
+			em.sendMailFunc = func(msg *gomail.Message) error {
+				subject, body, err := vtMailText(msg)
+				if err != nil {
+					body = "UNREADABLE " + err.Error()
+				}
+				mu.Lock()
+				captured = append(captured, vtCaptured{module: name, subject: subject, body: []byte(body)})
+				mu.Unlock()
+				return nil
+			}
+		}
+	}
+	coordinator.clusters[cluster] = &clusterGroups{Lock: &sync.RWMutex{}, Groups: map[string]*consumerGroup{}}
+	for _, g := range groups {
+		coordinator.clusters[cluster].Groups[g] = &consumerGroup{LastNotify: make(map[string]time.Time)}
+	}
+	incidentStart := map[string]time.Time{} // by the probe's own book-keeping: the clock value of the opening step
+	var lines []string
+	for step := 0; step < nsteps; step++ {
+		clock += t.i64() * int64(time.Second)
+		group := groups[int(t.i64())]
+		status := t.status(cluster, group)
+		VerifSetClock(clock)
+		grp := coordinator.clusters[cluster].Groups[group]
+		idBefore := grp.ID
+		captured = nil
+		coordinator.running.Add(1)
+		coordinator.checkAndSendResponseToModules(status)
+		id := idBefore
+		if id == "" {
+			id = grp.ID
+		}
+		_, active := incidentStart[group]
+		good := status.Status == protocol.StatusOK
+		if !active && status.Status > protocol.StatusOK {
+			incidentStart[group] = time.Unix(0, clock)
+			active = true
+		}
+		start := incidentStart[group]
+		got := append([]vtCaptured{}, captured...)
+		for _, m := range all {
+			// what the configuration and the sequence call for
+			expectKind := ""
+			switch {
+			case good && active && m.sendClose:
+				expectKind = "close"
+			case !good && int(status.Status) >= 2:
+				expectKind = "open"
+			}
+			var mine []vtCaptured
+			for _, c := range got {
+				if c.module == m.name {
+					mine = append(mine, c)
+				}
+			}
+			if expectKind == "" {
+				if len(mine) > 0 {
+					lines = append(lines, fmt.Sprintf("s%d %s MISMATCH: %d notifications sent, none expected", step, m.name, len(mine)))
+				}
+				continue
+			}
+			entry := fmt.Sprintf("s%d %s %s ", step, m.name, expectKind)
+			if len(mine) != 1 {
+				lines = append(lines, entry+fmt.Sprintf("MISMATCH: %d notifications received, 1 expected", len(mine)))
+				continue
+			}
+			c := mine[0]
+			file := m.open
+			if expectKind == "close" {
+				file = m.close
+			}
+			if m.name == "zzfields" {
+				var f struct {
+					Cluster, Group, ID string
+					Start              int64
+					Extras             map[string]string
+					Result             json.RawMessage
+				}
+				want, _ := json.Marshal(status)
+				switch err := json.Unmarshal(c.body, &f); {
+				case err != nil:
+					entry += "MISMATCH: body is not JSON: " + string(c.body)
+				case f.Cluster != cluster:
+					entry += fmt.Sprintf("MISMATCH field Cluster: %q, the reply is about cluster %q", f.Cluster, cluster)
+				case f.Group != group:
+					entry += fmt.Sprintf("MISMATCH field Group: %q, the reply is about group %q", f.Group, group)
+				case f.ID != id || id == "":
+					entry += fmt.Sprintf("MISMATCH field ID: %q, the incident's event id is %q", f.ID, id)
+				case f.Start != start.UnixNano():
+					entry += fmt.Sprintf("MISMATCH field Start: %d, the incident was opened at %d", f.Start, start.UnixNano())
+				case !reflect.DeepEqual(f.Extras, m.extras) && !(len(f.Extras) == 0 && len(m.extras) == 0):
+					entry += fmt.Sprintf("MISMATCH field Extras: %q, configured %q", f.Extras, m.extras)
+				case !bytes.Equal(f.Result, want):
+					entry += fmt.Sprintf("MISMATCH field Result: %s, the reply is %s", f.Result, want)
+				case c.kind != expectKind || c.uri != "/"+expectKind+"/"+m.name+"/"+group+"?id="+id:
+					entry += fmt.Sprintf("MISMATCH url: %s %s", c.method, c.uri)
+				default:
+					entry += "FIELDS-OK"
+				}
+				lines = append(lines, entry)
+				continue
+			}
+			tmpl, err := vtTemplate(file)
+			if err != nil {
+				lines = append(lines, entry+"PARSE-ERR")
+				continue
+			}
+			verdict, want := vtExec(tmpl, m.extras, status, id, start)
+			switch m.class {
+			case "http":
+				switch {
+				case c.kind != expectKind:
+					entry += fmt.Sprintf("MISMATCH: sent to the %s url", c.kind)
+				case !bytes.Equal(c.body, want):
+					entry += fmt.Sprintf("MISMATCH body: received %s expected %s", vtHexPrefix(c.body), vtHexPrefix(want))
+				case c.uri != "/"+expectKind+"/"+m.name+"/"+group+"?id="+id:
+					entry += fmt.Sprintf("MISMATCH url: %s %s", c.method, c.uri)
+				default:
+					entry += verdict
+				}
+			case "email":
+				ws, wb := vtMailExpected(string(want))
+				if c.subject != ws || strings.TrimRight(string(c.body), "\n") != strings.TrimRight(wb, "\n") {
+					entry += fmt.Sprintf("MISMATCH body: received %s expected %s", vtHexPrefix(c.body), vtHexPrefix([]byte(wb)))
+				} else {
+					entry += verdict
+				}
+			}
+			lines = append(lines, entry)
+		}
+		if good {
+			delete(incidentStart, group)
+		}
+	}
+	return strings.Join(lines, " | ")
+}
+
 func TestVerifProbeTmpl(t *testing.T) {
 	casesPath, outPath := os.Getenv("VERIF_CASES"), os.Getenv("VERIF_OUT")
 	if casesPath == "" || outPath == "" {
@@ -553,6 +845,8 @@ func TestVerifProbeTmpl(t *testing.T) {
 			fmt.Fprintln(w, vtOffer(tk))
 		case "conf":
 			fmt.Fprintln(w, vtConf(tk))
+		case "seq":
+			fmt.Fprintln(w, vtSeq(tk))
 		default:
 			t.Fatalf("unknown case kind in %q", line)
 		}
